@@ -1193,6 +1193,11 @@ func TestVerifC40(t *testing.T) {
 						st.violation("rpc-extras", "actor", fmt.Sprintf("call %d: handler saw actor %d, client set %d", id, seen.actor, actor), nil)
 					}
 					st.dist(fmt.Sprintf("reqflags=%08x tl2=%v err=%v", plan.Extra.Flags, plan.TL2, plan.Kind == 1))
+					if i < 2 && w == 0 {
+						st.mu.Lock()
+						st.samples = append(st.samples, map[string]any{"id": id, "tl2": plan.TL2, "request_extra": plan.Extra.String(), "response_extra_set_by_handler": plan.RespExtra.String(), "error": plan.Kind == 1})
+						st.mu.Unlock()
+					}
 					if plan.Kind == 1 {
 						var re *rpc.Error
 						wantCode := plan.ErrCode
